@@ -650,10 +650,26 @@ func runCase(cd caseDef, dir string, seed int64) (out caseOut) {
 		return fail("no leader")
 	}
 	e := &env{cl: cl, cd: cd, scratch: dir}
+	lostPin := false
 	setRoles := func() bool {
 		ld := cl.WaitLeader(60 * time.Second)
 		if ld == nil {
 			return false
+		}
+		if cd.FollowerOpen && ld.ID != "n1" {
+			// In this variant the roles are tied to the nodes: n1 has the store and must
+			// lead. An election (machine load) made the store-less node leader: hand
+			// leadership back, or give up on the case.
+			cnt("follower-open:leadership-handed-back", 1)
+			for i := 0; i < 5 && ld != nil && ld.ID != "n1"; i++ {
+				ld.Store.Stepdown(true, "n1")
+				time.Sleep(200 * time.Millisecond)
+				ld = cl.WaitLeader(60 * time.Second)
+			}
+			if ld == nil || ld.ID != "n1" {
+				lostPin = true
+				return false
+			}
 		}
 		e.leader = ld
 		for _, n := range cl.Live() {
@@ -743,6 +759,15 @@ func runCase(cd caseDef, dir string, seed int64) (out caseOut) {
 	slowLog := os.Getenv("VERIF_C18_SLOW") != ""
 	for idx, jb := range jobs {
 		t0 := time.Now()
+		if l0 := cl.Leader(); l0 != e.leader || (cd.FollowerOpen && (l0 == nil || l0.ID != "n1")) {
+			if !setRoles() {
+				out.Bad = append(out.Bad, obs{Idx: idx, Inconcl: "no usable leader before the request; rest of the case skipped"})
+				break
+			}
+			if st, w := e.capture(); w == "" {
+				cur = st
+			}
+		}
 		node := e.leader
 		if jb.role == "follower" {
 			node = e.follower
@@ -945,6 +970,12 @@ func runCase(cd caseDef, dir string, seed int64) (out caseOut) {
 			if st, w := e.capture(); w == "" {
 				cur = st
 			}
+		}
+		if lostPin {
+			o.Problems = nil
+			o.Inconcl = "the store-less node became leader and leadership could not be handed back; rest of the case skipped"
+			out.Bad = append(out.Bad, o)
+			break
 		}
 
 		if slowLog && time.Since(t0) > 300*time.Millisecond {
